@@ -539,6 +539,45 @@ def retransmission_carries_the_drawn_number(ctx, repo, rule):
     ctx.floor(rule, "request x delivered-message pairs", n, 12)
 
 
+def acknowledgement_numbers(ctx, repo, rule):
+    """The one request the library sends that no builder call site draws for - the STATQ acknowledgement of an unsolicited
+    partial update - by interpretation on both stacks: the connection object is built by its own constructor (only its
+    send path is a recorder), the long-lived partial-update handler by its own, three STATP messages made by the library's
+    builder are delivered; the acknowledgements must carry 1, 2, 3 - fresh draws of the protocol kind on a fresh
+    connection, never 0, each the successor of the one before."""
+    from ..absint import ClassRef, Interp, Native, PyRaise, Undecided
+    from . import c04
+    SYNC_H, ASYNC_H = "GeckoPartialStatusBlockProtocolHandler", "GeckoAsyncPartialStatusBlockProtocolHandler"
+    sender = ("10.0.0.7", 10022)
+    for stack, hname, hmeth, cname in (("awaitable", ASYNC_H, "async_handle", "GeckoAsyncUdpProtocol"), ("blocking", SYNC_H, "handle", "GeckoUdpSocket")):
+        it = Interp(repo, max_depth=12)
+        link = build_instance(repo, it, cname)
+        acks = []
+        link.attrs["queue_send"] = Native(lambda a, k: acks.append(a[0]), "queue_send")
+        try:
+            h = it.apply(ClassRef(repo.cls(hname)), [link], {})
+            for i in range(3):
+                msg = it.call(repo.method(SYNC_H, "report_changes"), None, [link, [(10 + i, b"\x00\x01")]])
+                acks.clear() if False else None
+                it.steps = 0
+                it.call(repo.method(hname, hmeth), h, [c04.wire_of(msg, it), sender])
+            got = []
+            for a in acks:
+                w = c04.wire_of(a, it)
+                w = bytes(w) if isinstance(w, (bytes, bytearray)) else (w.concrete() if hasattr(w, "concrete") else None)
+                got.append(w)
+        except PyRaise as e:
+            got = f"raises {e.what}"
+        except Undecided as e:
+            raise AnalysisError(f"{hname}: acknowledgement numbers on a constructed {cname}: {e}")
+        want = [b"STATQ" + bytes([n]) for n in (1, 2, 3)]
+        fi = repo.method(hname, hmeth)
+        ctx.ob(rule, f"{stack}::STATQ-acknowledgements-draw-fresh-protocol-numbers", got == want,
+               f"{stack} stack: three partial updates on a fresh connection are acknowledged with {got}, expected {want} - each acknowledgement must draw a new number of the protocol kind "
+               f"(a number read without drawing is 0 before the first request and repeats the last request's number afterwards)", fi.loc,
+               sample={"rule": rule, "stack": stack, "acknowledgements": [repr(g) for g in got] if isinstance(got, list) else got})
+
+
 def check(ctx):
     repo = Repo()
     ctx.exhaustive = True
@@ -549,6 +588,8 @@ def check(ctx):
     ctx.rule("R5", "both implementations identical modulo the lock")
     ctx.rule("R6", "what a retransmission puts on the wire is the number that was handed out: the content of every pending request is unchanged by any message its handler accepts (interpreted: build, handle, read content again)")
     retransmission_carries_the_drawn_number(ctx, repo, "R6")
+    ctx.rule("R7", "acknowledgements draw too: the STATQ that answers an unsolicited partial update carries a freshly drawn protocol number on both stacks (connection and handler built by their constructors, three updates -> 1, 2, 3)")
+    acknowledgement_numbers(ctx, repo, "R7")
     results = []
     for cname in IMPLS:
         r = fixpoint(ctx, repo, cname, ctx.tier)
